@@ -669,3 +669,210 @@ Proof.
   - split; [exact Hchain1|]. split; [rewrite Nat.add_0_r; exact Hlen1|]. split; [exact Hlo1|].
     unfold hi_of. apply Hlast1.
 Qed.
+
+(* ------------------------------------------------------------------ fit: uniform *)
+Lemma fold_left_qmin_in : forall t x, In (fold_left qmin t x) (x :: t).
+Proof.
+  induction t as [|y t IH]; intro x; cbn [fold_left]; [now left|].
+  destruct (IH (qmin x y)) as [H|H].
+  - rewrite <- H. unfold qmin. destruct (Qle_bool x y); [now left|right; now left].
+  - right. now right.
+Qed.
+
+Lemma fold_left_qmax_in : forall t x, In (fold_left qmax t x) (x :: t).
+Proof.
+  induction t as [|y t IH]; intro x; cbn [fold_left]; [now left|].
+  destruct (IH (qmax x y)) as [H|H].
+  - rewrite <- H. unfold qmax. destruct (Qle_bool x y); [right; now left|now left].
+  - right. now right.
+Qed.
+
+Lemma list_min_in : forall d l, l <> [] -> In (list_min d l) l.
+Proof. intros d [|x t] H; [congruence|]. apply fold_left_qmin_in. Qed.
+
+Lemma list_max_in : forall d l, l <> [] -> In (list_max d l) l.
+Proof. intros d [|x t] H; [congruence|]. apply fold_left_qmax_in. Qed.
+
+Lemma fit_filter_in : forall a0 a1 flat x,
+  In x (fit_filter a0 a1 flat) -> elt a0 (Fin x) = true /\ elt (Fin x) a1 = true.
+Proof.
+  intros a0 a1 flat x H. unfold fit_filter in H. apply filter_In in H. destruct H as [_ H].
+  now apply andb_true_iff in H.
+Qed.
+
+Lemma finish_bins_facts : forall outl bins a0 a1,
+  chainb bins = true -> elt a0 (lo_of bins) = true -> elt (hi_of bins) a1 = true ->
+  exists bins', finish_bins outl bins a0 a1 = Some bins' /\ chainb bins' = true /\
+    lo_of bins' = a0 /\ hi_of bins' = a1 /\ length bins' = (length bins + (if outl then 2 else 0))%nat.
+Proof.
+  intros outl bins a0 a1 Hc Hlo Hhi. unfold finish_bins. destruct outl.
+  - destruct (add_outlier_bins_facts bins a0 a1 Hc) as (b' & H1 & H2 & H3 & H4 & H5).
+    rewrite Hlo in *. rewrite Hhi in *. exists b'. repeat split; auto. rewrite H3. lia.
+  - destruct (expand_boundaries_facts bins a0 a1 Hc) as (b' & H1 & H2 & H3 & H4 & H5).
+    rewrite Hlo in *. rewrite Hhi in *. exists b'. repeat split; auto. rewrite H3. lia.
+Qed.
+
+Lemma hist_fit_uniform_facts : forall flat n a0 a1 outl,
+  (0 < n)%nat ->
+  (list_min 0 (fit_filter a0 a1 flat) < list_max 0 (fit_filter a0 a1 flat))%Q ->
+  exists bins, hist_fit_uniform flat n a0 a1 outl = Some bins /\ chainb bins = true /\
+    lo_of bins = a0 /\ hi_of bins = a1 /\ length bins = (n + (if outl then 2 else 0))%nat.
+Proof.
+  intros flat n a0 a1 outl Hn Hlt. unfold hist_fit_uniform.
+  set (f := fit_filter a0 a1 flat) in *.
+  assert (Hne : f <> []).
+  { intro E. rewrite E in Hlt. cbn in Hlt. exact (Qlt_irrefl _ Hlt). }
+  destruct (fit_filter_in a0 a1 flat _ (list_min_in 0 f Hne)) as [Hmin _].
+  destruct (fit_filter_in a0 a1 flat _ (list_max_in 0 f Hne)) as [_ Hmax].
+  destruct (interval_range_facts _ _ n Hn Hlt) as (Hc & Hlen & Hlo & Hhi).
+  destruct (finish_bins_facts outl (interval_range (list_min 0 f) (list_max 0 f) n) a0 a1 Hc) as (b' & H1 & H2 & H3 & H4 & H5).
+  - now rewrite (eeqb_elt_r _ _ a0 Hlo).
+  - now rewrite (eeqb_elt_l _ _ a1 Hhi).
+  - exists b'. repeat split; auto. now rewrite H5, Hlen.
+Qed.
+
+(* ------------------------------------------------------------------ fit: quantile (find_bin_boundaries) *)
+Lemma incr_snoc : forall l a v, incr (l ++ [a]) -> (a < v)%Q -> incr ((l ++ [a]) ++ [v]).
+Proof.
+  induction l as [|x l IH]; intros a v Hi Hav.
+  - cbn. split; [exact Hav|exact I].
+  - destruct l as [|y l'].
+    + cbn in *. destruct Hi as [Hxa _]. repeat split; auto.
+    + change (incr (x :: ((y :: l') ++ [a]) ++ [v])).
+      change (incr (x :: (y :: l') ++ [a])) in Hi.
+      cbn [app] in Hi |- *. destruct Hi as [Hxy Hi]. split; [exact Hxy|].
+      apply (IH a v); auto.
+Qed.
+
+Lemma find_breaks_loop_incr : forall thr rest k lastv acc',
+  incr (rev acc' ++ [lastv]) -> incr (find_breaks_loop thr rest k lastv (lastv :: acc')).
+Proof.
+  induction rest as [|[v cs] t IH]; intros k lastv acc' Hi.
+  - cbn [find_breaks_loop rev]. exact Hi.
+  - cbn [find_breaks_loop]. destruct (Qle_bool (thr k) cs && qltb lastv v) eqn:E.
+    + apply andb_true_iff in E. destruct E as [_ E]. apply qltb_iff in E.
+      apply IH. cbn [rev]. apply incr_snoc; auto.
+    + apply IH. exact Hi.
+Qed.
+
+Lemma find_breaks_loop_shape : forall thr rest k lastv acc,
+  exists e, find_breaks_loop thr rest k lastv acc = rev acc ++ e /\ (forall x, In x e -> In x (map fst rest)).
+Proof.
+  induction rest as [|[v cs] t IH]; intros k lastv acc.
+  - exists []. cbn. split; [now rewrite app_nil_r|intros x []].
+  - cbn [find_breaks_loop]. destruct (Qle_bool (thr k) cs && qltb lastv v).
+    + destruct (IH (S k) v (v :: acc)) as (e & He & Hin). exists (v :: e). split.
+      * rewrite He. cbn [rev]. now rewrite <- app_assoc.
+      * intros x [<-|Hx]; [now left|right; now apply Hin].
+    + destruct (IH k lastv acc) as (e & He & Hin). exists e. split; [exact He|].
+      intros x Hx. right. now apply Hin.
+Qed.
+
+Lemma find_breaks_incr : forall thr flat csum, incr (find_breaks thr flat csum).
+Proof.
+  intros thr [|v0 ft] [|c0 ct]; try exact I.
+  unfold find_breaks. apply find_breaks_loop_incr. exact I.
+Qed.
+
+Lemma in_map_fst_combine : forall (A B : Type) (l : list A) (l' : list B) x,
+  In x (map fst (combine l l')) -> In x l.
+Proof.
+  induction l as [|a l IH]; intros [|b l'] x H; cbn in *; try contradiction.
+  destruct H as [<-|H]; [now left|right; eauto].
+Qed.
+
+Lemma find_breaks_in : forall thr flat csum x, In x (find_breaks thr flat csum) -> In x flat.
+Proof.
+  intros thr [|v0 ft] [|c0 ct] x H; try contradiction.
+  unfold find_breaks in H.
+  destruct (find_breaks_loop_shape thr (combine ft ct) 1 v0 [v0]) as (e & He & Hin).
+  rewrite He in H. cbn in H. destruct H as [<-|H]; [now left|].
+  right. eapply in_map_fst_combine. apply Hin. exact H.
+Qed.
+
+Lemma find_breaks_head : forall thr v0 ft c0 ct,
+  exists e, find_breaks thr (v0 :: ft) (c0 :: ct) = v0 :: e.
+Proof.
+  intros. unfold find_breaks.
+  destruct (find_breaks_loop_shape thr (combine ft ct) 1 v0 [v0]) as (e & He & _).
+  exists e. now rewrite He.
+Qed.
+
+Lemma incr_lt_all : forall l a, incr (a :: l) -> Forall (fun b => (a < b)%Q) l.
+Proof.
+  induction l as [|b l IH]; intros a H; [constructor|].
+  destruct H as [Hab Hi]. constructor; [exact Hab|].
+  assert (Hi' : incr (a :: l)).
+  { destruct l as [|c l']; [exact I|]. destruct Hi as [Hbc Hi]. split; [eapply Qlt_trans; eauto|exact Hi]. }
+  apply IH. exact Hi'.
+Qed.
+
+Lemma incr_strongly_sorted : forall l, incr l -> StronglySorted Qlt l.
+Proof.
+  induction l as [|a l IH]; intro H; [constructor|].
+  constructor.
+  - apply IH. destruct l as [|b l']; [exact I|]. now destruct H.
+  - now apply incr_lt_all.
+Qed.
+
+Lemma strongly_sorted_incr : forall l, StronglySorted Qlt l -> incr l.
+Proof.
+  induction l as [|a l IH]; intro H; [exact I|].
+  inversion H as [|a' l' Hs Hf]; subst. destruct l as [|b l']; [exact I|].
+  split; [now inversion Hf|now apply IH].
+Qed.
+
+Lemma last_map : forall (A B : Type) (f : A -> B) l d, l <> [] -> last (map f l) (f d) = f (last l d).
+Proof.
+  induction l as [|a l IH]; intros d Hne; [congruence|].
+  destruct l as [|b l']; [reflexivity|].
+  change (last (map f (a :: b :: l')) (f d)) with (last (map f (b :: l')) (f d)).
+  change (last (a :: b :: l') d) with (last (b :: l') d). apply IH. discriminate.
+Qed.
+
+Lemma last_default : forall (A : Type) (l : list A) d d', l <> [] -> last l d = last l d'.
+Proof.
+  induction l as [|a l IH]; intros d d' Hne; [congruence|].
+  destruct l as [|b l']; [reflexivity|].
+  change (last (a :: b :: l') d) with (last (b :: l') d).
+  change (last (a :: b :: l') d') with (last (b :: l') d'). apply IH. discriminate.
+Qed.
+
+Lemma hist_fit_breaks_facts : forall breaks a0 a1 outl,
+  incr breaks -> (2 <= length breaks)%nat ->
+  elt a0 (Fin (hd 0 breaks)) = true -> elt (Fin (last breaks 0)) a1 = true ->
+  exists bins, hist_fit_breaks breaks a0 a1 outl = Some bins /\ chainb bins = true /\
+    lo_of bins = a0 /\ hi_of bins = a1 /\ length bins = (length breaks - 1 + (if outl then 2 else 0))%nat.
+Proof.
+  intros breaks a0 a1 outl Hi Hlen Hlo Hhi. unfold hist_fit_breaks.
+  destruct breaks as [|a [|b l]]; cbn [length] in Hlen; try lia.
+  destruct (finish_bins_facts outl (from_breaks (map Fin (a :: b :: l))) a0 a1) as (b' & H1 & H2 & H3 & H4 & H5).
+  - now apply chainb_from_breaks.
+  - exact Hlo.
+  - unfold hi_of. cbn [map]. rewrite last_right_from_breaks.
+    change (Fin b :: map Fin l) with (map Fin (b :: l)).
+    rewrite (last_default _ _ NInf (Fin 0)) by discriminate.
+    rewrite last_map by discriminate. exact Hhi.
+  - exists b'. repeat split; auto. rewrite H5, from_breaks_length, map_length. reflexivity.
+Qed.
+
+Lemma hist_fit_quantile_facts : forall thr flat sorted csum a0 a1 outl,
+  (forall x, In x sorted -> In x (fit_filter a0 a1 flat)) ->
+  (2 <= length (find_breaks thr sorted csum))%nat ->
+  exists bins, hist_fit_breaks (find_breaks thr sorted csum) a0 a1 outl = Some bins /\ chainb bins = true /\
+    lo_of bins = a0 /\ hi_of bins = a1 /\
+    length bins = (length (find_breaks thr sorted csum) - 1 + (if outl then 2 else 0))%nat.
+Proof.
+  intros thr flat sorted csum a0 a1 outl Hsub Hlen.
+  set (bs := find_breaks thr sorted csum) in *.
+  assert (Hne : bs <> []) by (destruct bs; [cbn in Hlen; lia|discriminate]).
+  assert (Hall : forall x, In x bs -> elt a0 (Fin x) = true /\ elt (Fin x) a1 = true).
+  { intros x Hx. apply (fit_filter_in a0 a1 flat). apply Hsub. eapply find_breaks_in; eauto. }
+  apply hist_fit_breaks_facts; auto.
+  - apply find_breaks_incr.
+  - apply Hall. destruct bs; [congruence|now left].
+  - apply Hall. destruct (exists_last Hne) as (l' & a & E). rewrite E, last_last. apply in_or_app. right. now left.
+Qed.
+
+Lemma find_breaks_sorted : forall thr flat csum, StronglySorted Qlt (find_breaks thr flat csum).
+Proof. intros. apply incr_strongly_sorted. apply find_breaks_incr. Qed.
